@@ -63,6 +63,8 @@ func (pool *TransactionsPool) AddTransaction(transaction *ledger.Transaction, br
 }
 
 func (pool *TransactionsPool) Transactions() []*ledger.Transaction {
+	pool.mutex.RLock()
+	defer pool.mutex.RUnlock()
 	return pool.transactions
 }
 
@@ -152,6 +154,8 @@ func (pool *TransactionsPool) Validate(timestamp int64) {
 }
 
 func (pool *TransactionsPool) addTransaction(transaction *ledger.Transaction) error {
+	pool.mutex.Lock()
+	defer pool.mutex.Unlock()
 	lastBlockTimestamp := pool.blocksManager.LastBlockTimestamp()
 	if lastBlockTimestamp == 0 {
 		return errors.New("the blockchain is empty")
@@ -188,8 +192,6 @@ func (pool *TransactionsPool) addTransaction(transaction *ledger.Transaction) er
 	if err = utxoManagerCopy.UpdateUtxos([]*ledger.Transaction{transaction}, nextBlockTimestamp); err != nil {
 		return fmt.Errorf("failed to update UTXOs: %w", err)
 	}
-	pool.mutex.Lock()
-	defer pool.mutex.Unlock()
 	pool.transactions = append(pool.transactions, transaction)
 	return nil
 }
